@@ -69,14 +69,22 @@ pub struct NetCfg {
     pub retx_threshold: u32,
     pub retx_max: u32,
     pub backlog: usize,
+    /// receive buffer cap in bytes (0 = the kernel's default)
+    #[serde(default)]
+    pub recv_cap: u32,
 }
 
 impl NetCfg {
     pub fn kernel(&self) -> KernelConfig {
-        KernelConfig::default()
+        let k = KernelConfig::default()
             .retx_threshold(self.retx_threshold)
             .retx_max(self.retx_max)
-            .default_backlog(self.backlog)
+            .default_backlog(self.backlog);
+        if self.recv_cap > 0 {
+            k.recv_buf_cap(self.recv_cap as usize)
+        } else {
+            k
+        }
     }
     /// Egress rounds after which a handshake / data retransmission has certainly given up.
     pub fn give_up_rounds(&self) -> u64 {
